@@ -831,8 +831,28 @@ def run(run):
             for i in heads:
                 fcases.append((0, cuts(stream, [i, r.choice(tails)]), fr))
                 fcases.append((0, cuts(stream, [i, i + 1]), fr))
+    # two extended-length frames back to back, the SECOND smaller or larger than the first (state a handler keeps about one
+    # frame must not leak into the next): a cut at every position of the second frame's header / extended length / key,
+    # around its end, and pairs of such cuts
+    pairs = [(300, 126), (300, 200), (130, 127), (126, 300), (65536, 300), (66000, 65536), (65535, 126)]
+    for na, nb in (pairs if run.thorough() else pairs[:5]):
+        fa = (1, 0, 0, 0, 2, 1, rnd_bytes(r, 4), na, rnd_bytes(r, na))
+        fb = (1, 0, 0, 0, r.choice([1, 2]), 1, rnd_bytes(r, 4), nb, payload_for(r, 1, nb))
+        fb = fb[:4] + (1,) + fb[5:]
+        fr = [fa, fb] + client_frames(r, 1, maxlen=4)
+        encs = [rfc_encode(*f[:7], f[8]) for f in fr]
+        stream = b"".join(encs)
+        a, b = len(encs[0]), len(encs[0]) + len(encs[1])
+        heads = list(range(max(0, a - 2), a + 16))
+        tails = list(range(b - 3, b + 3))
+        for i in heads + tails:
+            fcases.append((0, cuts(stream, [i]), fr))
+        for i in heads:
+            fcases.append((0, cuts(stream, [i, r.choice(tails)]), fr))
+            fcases.append((0, cuts(stream, [r.randrange(1, a), i]), fr))
     run.exhaustive.append("streams: every cut position inside the header/extended length/key and around the end of frames "
-                          "of length 126, 127, 300, 65535, 65536")
+                          "of length 126, 127, 300, 65535, 65536; the same for the second of two extended-length frames "
+                          "(second smaller / larger than the first)")
     # malformed streams
     for _ in range(400 if run.thorough() else 120):
         fr = client_frames(r, r.randrange(1, 5), maxlen=8)
